@@ -19,16 +19,20 @@ import (
 //     the same MAC (its own accounting session) ended by RELEASE.
 //     The same paths for clients with hardware addresses of 1, 5, 7 and 16 bytes (oddHlen), and REQUESTs with a
 //     termination inside their unlock window (raced), and sessions whose QoS / NAT install failed half-way because a
-//     kernel map was full, ended by every path (faulted).
+//     kernel map was full, ended by every path (faulted); sessions with a PARTIAL fast-path cache set (subscriber_pools /
+//     circuit_id_map / circuit_id_subscribers full at establishment or renewal) and sessions whose cache entries cannot
+//     be removed (the Loader's handle of a cache map is write-protected when the session ends, or when a renewal drops
+//     the old circuit-id's entries), ended by every path, with what happens to the leftovers afterwards (cachefaulted).
 //  2. Random sequences over 3-4 MACs on the 5 usable addresses (conflicts, exhaustion, reuse of addresses that carry
 //     residue), short leases, every operation kind.
-//  3. Small-scope exhaustive: every sequence of depth 4 over a 20-letter alphabet on two MACs (thorough: all of them,
+//  3. Small-scope exhaustive: every sequence of depth 4 over a 22-letter alphabet on two MACs (thorough: all of them,
 //     quick: a seeded sample).
 func (comp) Gen(r *rand.Rand, tier string, emit func([]string)) {
 	crossProduct(r, tier, emit)
 	oddHlen(r, tier, emit)
 	raced(emit)
 	faulted(emit)
+	cachefaulted(emit)
 	nRand, lenRand := 250, 30
 	if tier == "thorough" {
 		nRand, lenRand = 6000, 40
@@ -211,6 +215,76 @@ func faulted(emit func([]string)) {
 	}
 }
 
+// cachefaulted: failing writes of the fast-path cache maps.
+//
+//	Put failures (`fault sub|cidmap|cid|vlan on`: the map has no free slot): a session established, or renewed under
+//	another circuit-id, while one / all of the maps are full carries a partial cache set; it is then ended by every path.
+//	Delete failures (`wfault sub|cidmap|cid on`: every write through the Loader's handle fails): the session is
+//	established normally, the map is write-protected while it ends (or while a renewal drops the old circuit-id's
+//	entries); afterwards: the protection is lifted, a second termination, a cleanup pass, the next holder of the
+//	address, the same client coming back (its Put overwrites the leftover, its next termination removes it).
+func cachefaulted(emit func([]string)) {
+	ends := [][]string{
+		{"rel m1"}, {"dec m1 a2"}, {"tick 301", "cleanup"}, {"tick 301", "gap rel m1"}, {"split rel m1 / dec m1 a2"},
+		{"tick 100", "req m1 a2 c2", "rel m1"}, {"estgap m1 a2 c1 / rel m1", "rel m1"}, {"shutdown"},
+	}
+	for _, rad := range []string{"radius", "noradius"} {
+		for _, fs := range [][]string{{"sub"}, {"cidmap"}, {"cid"}, {"vlan"}, {"sub", "cidmap", "cid"}} {
+			for _, stays := range []bool{false, true} {
+				for _, e := range ends {
+					seq := []string{"new " + rad + " 300"}
+					for _, f := range fs {
+						seq = append(seq, "fault "+f+" on")
+					}
+					seq = append(seq, "req m1 a2 c1")
+					if !stays {
+						for _, f := range fs {
+							seq = append(seq, "fault "+f+" off")
+						}
+					}
+					seq = append(seq, e...)
+					seq = append(seq, "disc m2 -", "req m2 a2 c1", "fault "+fs[0]+" off", "req m2 a2 c2", "rel m2", "rel m1")
+					emit(seq)
+				}
+			}
+		}
+		// a renewal under another circuit-id while the circuit maps are full: the Delete of the old entry frees the slot
+		// the Put of the new one takes; a second client finds the maps full
+		emit([]string{"new " + rad + " 300", "req m1 a2 c1", "fault cid on", "fault cidmap on", "req m1 a2 c2", "req m2 a3 c1",
+			"req m1 a2 -", "req m1 a2 c3", "rel m1", "req m2 a3 c2", "fault cid off", "req m2 a3 c1", "tick 301", "cleanup"})
+		for _, ws := range [][]string{{"sub"}, {"cidmap"}, {"cid"}, {"sub", "cidmap", "cid"}} {
+			on, off := []string{}, []string{}
+			for _, w := range ws {
+				on, off = append(on, "wfault "+w+" on"), append(off, "wfault "+w+" off")
+			}
+			for _, e := range ends {
+				for _, after := range [][]string{
+					{"rel m1", "tick 1000", "cleanup", "disc m2 -", "req m2 a2 c1", "rel m2"},
+					{"req m1 a2 c1", "rel m1"},
+				} {
+					seq := append([]string{"new " + rad + " 300", "req m1 a2 c1"}, on...)
+					seq = append(seq, e...)
+					seq = append(seq, off...)
+					seq = append(seq, after...)
+					emit(seq)
+				}
+			}
+			// the protection is on when the session is established as well (nothing is written, nothing is left), and
+			// while a renewal changes the circuit-id (the old circuit-id's entries stay, the new one's are not written)
+			seq := append([]string{"new " + rad + " 300"}, on...)
+			seq = append(seq, "req m1 a2 c1", "rel m1", "req m1 a2 c1")
+			seq = append(seq, off...)
+			seq = append(seq, "req m1 a2 c2", "rel m1")
+			emit(seq)
+			seq = append([]string{"new " + rad + " 300", "req m1 a2 c1"}, on...)
+			seq = append(seq, "tick 100", "req m1 a2 c2")
+			seq = append(seq, off...)
+			seq = append(seq, "req m1 a2 c3", "rel m1", "req m2 a2 c1", "tick 301", "cleanup")
+			emit(seq)
+		}
+	}
+}
+
 var prefAddr = map[int]string{1: "a2", 2: "a3", 3: "a4", 4: "a5", 5: "a3", 6: "a4", 7: "a5"}
 
 func randTerm(r *rand.Rand, macs []int, allowCleanup bool) string {
@@ -265,8 +339,14 @@ func randomOp(r *rand.Rand, macs []int) string {
 		}
 		return "split " + first + " / " + second
 	case x < 99:
-		if r.Intn(3) == 0 {
+		if r.Intn(4) == 0 {
 			return "shutdown"
+		}
+		if r.Intn(2) == 0 {
+			if r.Intn(2) == 0 {
+				return fmt.Sprintf("wfault %s %s", hx.Pick(r, []string{"sub", "cidmap", "cid"}), hx.Pick(r, []string{"on", "off"}))
+			}
+			return fmt.Sprintf("fault %s %s", hx.Pick(r, []string{"sub", "cidmap", "cid", "vlan"}), hx.Pick(r, []string{"on", "on", "off"}))
 		}
 		return fmt.Sprintf("fault %s %s", hx.Pick(r, []string{"qi", "qi", "qe", "nat"}), hx.Pick(r, []string{"on", "on", "off"}))
 	default:
@@ -296,9 +376,9 @@ func exhaustive(r *rand.Rand, tier string, emit func([]string)) {
 		"req m2 a2 -", "req m2 a3 c1", "rel m2", "dec m2 a3",
 		"tick 301", "cleanup", "gap rel m1", "gap dec m1 a2", "split rel m1 / dec m1 a2", "split dec m1 a2 / cleanup",
 		"split rel m2 / rel m1", "estgap m1 a2 c1 / rel m1", "estgap m1 a2 - / dec m1 a2",
-		"fault qi on",
+		"fault qi on", "fault sub on", "wfault cid on",
 	}
-	keep := 60
+	keep := 88 // 22^4 sequences: about 2700 of them in the quick tier
 	var rec func(prefix []string, depth int)
 	rec = func(prefix []string, depth int) {
 		if depth == 0 {
